@@ -519,6 +519,15 @@ def b_native(B):
                 for sl in (slice(None, None, -1), slice(chunk + 5, 3, -2)):
                     if not np.array_equal(a[sl, :], c[sl, :]):
                         neg.append(repr(sl))
+                # several sample indices at once (list, integer array, boolean mask, range): NumPy semantics on the flat file
+                fancy = []
+                for nm_, sel_ in (("list", [3, chunk, 5]), ("array", np.array([0, ns - 1])), ("one-element list", [7]), ("range", range(3, 9)), ("boolean mask", np.arange(ns) % 700 == 0)):
+                    try:
+                        r_c = c[sel_]
+                        if np.shape(r_c) != np.shape(a[sel_]) or not np.array_equal(r_c, a[sel_]):
+                            fancy.append((nm_, "shape on .bin", np.shape(a[sel_]), "on .cbin", np.shape(r_c)))
+                    except NotImplementedError as e:
+                        fancy.append((nm_, "raises on .cbin: " + repr(e)[:70]))
                 a.close()
                 # lossless
                 c.decompress_file(keep_original=True, out=pathlib.Path(d) / "back.bin")
@@ -527,6 +536,8 @@ def b_native(B):
                 B.case(("transparent", ns, nc), ok and not bad and same, detail={"shape_ok": ok, "mismatching_selectors": bad[:5], "lossless": same}, inputs={"kind": "transparent", "ns": ns})
                 if neg:
                     B.case(("negative_step", ns), False, detail=f"negative-step slices differ on .cbin: {neg}", inputs={"kind": "negative_step_cbin"})
+                if fancy:
+                    B.case(("sample_index_lists", ns), False, detail=f"lists / arrays / ranges of sample indices on .cbin: {fancy}", inputs={"kind": "fancy_sample_index_cbin"})
             finally:
                 shutil.rmtree(d, ignore_errors=True)
     r = replay_companion({}, "")
